@@ -51,7 +51,7 @@ var erClauses = map[string]string{
 
 func init() {
 	register("C07",
-		"Static rules over ReadFile, the header reader, the schema lookup and the decompressors decide the structural clauses of C07: "+
+		"Static rules over ReadFile, the header reader, the schema lookup and the decompressors decide the structural clauses of C07:  io.ErrUnexpectedEOF is never taken for a normal end of input (ER-UEOF). "+
 			"magic/schema/codec-table/sync/CRC comparisons dominate every success path (OD-MAGIC, OD-SCHEMA, CT-AGREE, NIL-IFACE, OD-SYNC, OD-CRC), "+
 			"every error on the reading path is checked (ER-CHECK), the callback's error is returned unchanged (ER-PASS), the payload buffer has the declared length and flows unchanged through decompress/decode/deliver (OD-LEN, OD-FLOW), "+
 			"and each block delivers exactly its declared count (OD-LOOP). Not decided: that the comparisons compute the right values for all inputs inside the standard library and snappy (trusted), and value fidelity of the decoded records (C03).",
@@ -75,10 +75,11 @@ func init() {
 				erCheck(c, fn, erOpts{allowEOFNil: fn == s.fn}, "ER-CHECK", "", "", erClauses)
 			}
 			c.Note("not decided: correctness of compress/flate, snappy and crc32 themselves; the values of decoded records (C03)")
+			ruleERUEOF(c)
 		})
 
 	register("C08",
-		"Static rules over ReadFile decide the case analysis of C08 for the container layer: the only success return is behind errors.Is(err, io.EOF) of the first read of a block iteration (OD-EOF), "+
+		"Static rules over ReadFile decide the case analysis of C08 for the container layer: the only success return is behind errors.Is(err, io.EOF) of the first read of a block iteration (OD-EOF),  io.ErrUnexpectedEOF is never taken for a normal end of input (ER-UEOF). "+
 			"the input is consumed only through io.ReadFull and binary.ReadVarint, each error-checked (OD-READFULL, ER-CHECK), and a record is delivered only after its block's payload was read in full, decompressed and decoded without error (OD-DELIVER, OD-LOOP, OD-SYNC for the marker). "+
 			"Trusted: binary.ReadVarint returns io.EOF only when no byte was read; io.ReadFull returns an error unless the buffer was filled. Not decided: fidelity of the delivered values (C03).",
 		func(c *Ctx) {
@@ -106,5 +107,6 @@ func init() {
 				}}, "ER-CHECK", "", "", erClauses)
 			}
 			c.Assume = append(c.Assume, "encoding/binary.ReadVarint returns io.EOF only if no byte was read; io.ReadFull returns a non-nil error unless len(buf) bytes were read")
+			ruleERUEOF(c)
 		})
 }
